@@ -54,19 +54,10 @@ pub fn read_pairs(
         .collect::<StdResult<Vec<PairInfo>>>()
 }
 
-// this will set the first key after the provided key, by appending a 1 byte
+// the key of the pair to continue after; it is used as an exclusive bound, so the walk
+// resumes at the first key strictly greater than it
 fn calc_range_start(start_after: Option<[AssetInfoRaw; 2]>) -> Option<Vec<u8>> {
-    start_after.map(|asset_infos| {
-        let mut asset_infos = asset_infos.to_vec();
-        asset_infos.sort_by(|a, b| a.as_bytes().cmp(b.as_bytes()));
-
-        let mut v = [asset_infos[0].as_bytes(), asset_infos[1].as_bytes()]
-            .concat()
-            .as_slice()
-            .to_vec();
-        v.push(1);
-        v
-    })
+    start_after.map(|asset_infos| pair_key(&asset_infos))
 }
 
 // key : asset info / value: decimals
